@@ -47,10 +47,10 @@ type world struct {
 	stream bool
 	mu     sync.Mutex
 	rng    *rand.Rand
-	seen   map[int]*fakenet.Conn       // seq -> first conn that carried it
+	seen   map[int]*fakenet.Conn          // seq -> first conn that carried it
 	perCon map[*fakenet.Conn]map[int]bool // conn -> distinct seqs
-	pend   map[int][]pendq             // seq -> pending (unanswered) transmissions
-	mode   map[int]string              // seq -> "reply" | "hold"
+	pend   map[int][]pendq                // seq -> pending (unanswered) transmissions
+	mode   map[int]string                 // seq -> "reply" | "hold"
 	seenCh map[int]chan struct{}
 	defr   map[*fakenet.Conn]*wire.Deframer
 	nrep   int
@@ -180,10 +180,10 @@ type tcase struct {
 }
 
 type dialCtl struct {
-	mu     sync.Mutex
-	gate   chan struct{} // non-nil: dial blocks until closed
-	failN  int           // next failN dials fail
-	dials  atomic.Int64
+	mu    sync.Mutex
+	gate  chan struct{} // non-nil: dial blocks until closed
+	failN int           // next failN dials fail
+	dials atomic.Int64
 }
 
 func (d *dialCtl) before(ctx context.Context) error {
@@ -282,7 +282,7 @@ func waitSeen(pcs []*pendingCall, d time.Duration) bool {
 
 func barrier(tc tcase) {
 	caselog.Log(tc)
-	defer timed("barrier-"+tc.Kind)()
+	defer timed("barrier-" + tc.Kind)()
 	setup(tc)
 	w := newWorld(tc.Stream, tc.Seed)
 	dc := &dialCtl{}
@@ -381,7 +381,7 @@ func setup(tc tcase) {
 
 func history(tc tcase) {
 	caselog.Log(tc)
-	defer timed("history-"+tc.Kind)()
+	defer timed("history-" + tc.Kind)()
 	setup(tc)
 	w := newWorld(tc.Stream, tc.Seed)
 	dc := &dialCtl{}
@@ -663,7 +663,7 @@ func history(tc tcase) {
 
 func early(tc tcase) {
 	caselog.Log(tc)
-	defer timed("early-"+tc.Kind)()
+	defer timed("early-" + tc.Kind)()
 	setup(tc)
 	w := newWorld(tc.Stream, tc.Seed)
 	dc := &dialCtl{gate: make(chan struct{})}
@@ -730,7 +730,7 @@ func early(tc tcase) {
 
 func bare(tc tcase) {
 	caselog.Log(tc)
-	defer timed("bare-"+tc.Kind)()
+	defer timed("bare-" + tc.Kind)()
 	setup(tc)
 	w := newWorld(tc.Stream, tc.Seed)
 	c := w.newConn()
@@ -844,6 +844,110 @@ func bare(tc tcase) {
 	}
 }
 
+// qidExhaustion: 100 queries with consecutive wire IDs stay unanswered while
+// 65436 others pass, so the 16-bit ID counter wraps onto that block and the next
+// query cannot be given an ID (it fails with "too many queries": original
+// behaviour). Whatever happens to that query, its reservation must be released:
+// at quiescence the counters are zero and the connection admits its full limit.
+func qidExhaustion(seed int64) {
+	tc := tcase{Kind: "tdc", Stream: false, L: 4096, Seed: seed, Phase: "qid-exhaustion"}
+	caselog.Log(tc)
+	defer timed("qid-exhaustion")()
+	runtime.GOMAXPROCS(16)
+	sched.NoPerturb()
+	w := newWorld(false, seed)
+	c := w.newConn()
+	dc := transport.NewDnsConn(transport.TraditionalDnsConnOpts{WithLengthHeader: false, IdleTimeout: 60 * time.Second, MaxConcurrentQuery: tc.L}, c)
+	defer dc.Close()
+	exchange := func(mode string, timeout time.Duration) *pendingCall {
+		rx, _ := dc.ReserveNewQuery()
+		if rx == nil {
+			return nil
+		}
+		seq := int(seqCtr.Add(1))
+		pc := &pendingCall{seq: seq, seen: w.register(seq, mode), done: make(chan error, 1)}
+		ctx, cancel := context.WithTimeout(context.Background(), timeout)
+		pc.cancel = cancel
+		go func() {
+			r, err := rx.ExchangeReserved(ctx, dnsadv.Query(uint16(seq), seq, 1, "c09", 1))
+			if err == nil {
+				pool.ReleaseBuf(r)
+			}
+			pc.done <- err
+		}()
+		return pc
+	}
+	var held []*pendingCall
+	for i := 0; i < 100; i++ {
+		pc := exchange("hold", 120*time.Second)
+		if pc == nil {
+			rep.Inconclusive("qid-exhaustion: reservation refused while holding")
+			return
+		}
+		select {
+		case <-pc.seen:
+		case <-time.After(5 * time.Second):
+			rep.Inconclusive("qid-exhaustion: held query never written")
+			return
+		}
+		held = append(held, pc)
+	}
+	var wg sync.WaitGroup
+	const fill = 65436
+	for g := 0; g < 4; g++ {
+		wg.Add(1)
+		go func() {
+			defer wg.Done()
+			for i := 0; i < fill/4; i++ {
+				pc := exchange("reply", 10*time.Second)
+				if pc != nil {
+					<-pc.done
+					pc.cancel()
+				}
+			}
+		}()
+	}
+	wg.Wait()
+	// the ID counter now sits on the held block: these queries cannot get an ID
+	failedNoID := 0
+	for i := 0; i < 3; i++ {
+		pc := exchange("reply", 2*time.Second)
+		if pc == nil {
+			continue
+		}
+		if err := <-pc.done; err != nil {
+			failedNoID++
+		}
+		pc.cancel()
+	}
+	rep.Eval(1)
+	for _, pc := range held {
+		w.release(pc.seq)
+	}
+	for _, pc := range held {
+		select {
+		case <-pc.done:
+		case <-time.After(10 * time.Second):
+		}
+		pc.cancel()
+	}
+	res, q, lim, closed := dc.VerifCounters()
+	wit := map[string]any{"case": tc, "queries_that_could_not_get_a_wire_id": failedNoID, "reserved": res, "queued": q, "limit": lim}
+	rep.Count("qid_exhaustion_queries_refused_an_id", int64(failedNoID))
+	if closed {
+		rep.Inconclusive("qid-exhaustion: connection closed")
+		return
+	}
+	if res != 0 || q != 0 {
+		rep.Violation("leak-reserved-after-wire-id-exhaustion", fmt.Sprintf("after %d queries failed to obtain a wire ID (100 consecutive IDs were in use) the idle connection still counts reserved=%d queued=%d: capacity leaked", failedNoID, res, q), wit)
+		return
+	}
+	if failedNoID > 0 {
+		rep.Nontrivial("qid-exhaustion|refused-and-released")
+	}
+	rep.Count("qid_exhaustion_scenarios_ok", 1)
+}
+
 func main() {
 	rep = evid.New("C09", "exploration")
 	caselog = evid.OpenCaseLog()
@@ -919,6 +1023,7 @@ func main() {
 	for i := 0; i < rep.Pick(200, 3000); i++ {
 		bare(tcase{Kind: "tdc", Stream: rng.Intn(2) == 0, L: limits[rng.Intn(len(limits))], Seed: rng.Int63n(1 << 40), Phase: "bare", Procs: procs[rng.Intn(3)], Perturb: rng.Intn(2) == 0})
 	}
+	qidExhaustion(rep.Seed)
 	runtime.GOMAXPROCS(16)
 	sched.NoPerturb()
 	for name, n := range sched.Counts() {
